@@ -212,6 +212,14 @@ func runC20Solo(tier string, seed uint64, o *Out) error {
 		o.Line("%s", res[0])
 		return nil
 	}
+	if rq.Fam == "unhash" { // unhashable-argument family (c20e.go): Typ = column-name suffix
+		res, err := c20TRun([]string{rq.Sql}, [][]map[string]any{c20URows(rs, rq.Inst, rq.N, rq.Typ)}, nil, false, true, 0)
+		if err != nil {
+			return err
+		}
+		o.Line("%s", res[0])
+		return nil
+	}
 	rows := c20FRows(rs, rq.Inst, rq.N)
 	res, err := c20FRun([]string{rq.Sql}, [][]map[string]any{rows}, nil, false, rq.Win, rq.Keyed)
 	if err != nil {
